@@ -709,3 +709,15 @@ Module CycleFailExample.
     evalRg 100 D (RAnd (RNot (RAtom (atom 1000 (T 3)))) (RNot (RAtom (atom 1000 (T 1))))) = Some true.
   Proof. repeat split; reflexivity. Qed.
 End CycleFailExample.
+
+Module F7nExample.
+  (* S0 { a: S3 }  S3 { b: S0 }  (a ring);  #[auto] Send = 1000 *)
+  Definition T (i : N) := tAdt i [].
+  Definition D : decls := mkDecls [mkAdt 0 0 true false [[T 3]]; mkAdt 3 0 true false [[T 0]]] [mkTrait 1000 true false None] [].
+  Example f7n_witness :
+    f7n_atom 100 (bodsR D) (isco (coD D)) (atom 1000 (tTuple [T 3; T 0])) = true /\
+    f7n_atom 100 (bodsR D) (isco (coD D)) (atom 1000 (T 0)) = false /\
+    f7n_atom 100 (bodsR D) (isco (coD D)) (atom 1000 (tTuple [T 3; T 3])) = false /\
+    evalRg 100 D (RNot (RAtom (atom 1000 (tTuple [T 3; T 0])))) = Some false.
+  Proof. repeat split; reflexivity. Qed.
+End F7nExample.
